@@ -286,7 +286,9 @@ func runCase(c *vrun.Case, s scenario) vrun.Result {
 		opts = append(opts, iscp.WithUpstreamDataIDs(ids))
 	}
 	ctx := context.Background()
-	up, err := conn.OpenUpstream(ctx, "sess", opts...)
+	octx, ocancel := context.WithTimeout(ctx, 30*time.Second) // released right after the open
+	up, err := conn.OpenUpstream(octx, "sess", opts...)
+	ocancel()
 	if err != nil {
 		return vrun.Inconcl("open upstream failed: " + err.Error())
 	}
